@@ -68,3 +68,52 @@ pub fn run_foreign(input: &mut dyn std::io::BufRead, out: &mut dyn Write) {
         out.write_all(b"\n").unwrap();
     }
 }
+
+/// The in-memory Attributes API (insert / remove / get / clear / drain) under a seeded driver; every call
+/// is logged with its return value and the map's ordered content, for AttrMapTrace.tla.
+pub fn run_map(seed: u64, episodes: usize, steps: usize, out: &mut dyn Write) {
+    use rand::Rng;
+    use rbx_dom_weak::types::Variant;
+    let keys = ["", "a", "b", "ab", "B", "\u{e9}"];
+    let mut rng = StdRng::seed_from_u64(seed);
+    let val = |v: Option<Variant>| -> i64 { match v { Some(Variant::Int32(x)) => x as i64, Some(_) => -7, None => -1 } };
+    for e in 0..episodes {
+        let ep = format!("attrmap:{}:{}", seed, e);
+        let mut a = Attributes::new();
+        let emit = |out: &mut dyn Write, mut ev: Value, a: &Attributes| {
+            ev["ep"] = json!(ep);
+            ev["post"] = Value::Array(a.iter().map(|(k, v)| json!([bytes(k.as_bytes()), val(Some(v.clone()))])).collect());
+            ev["len"] = json!(a.len());
+            serde_json::to_writer(&mut *out, &ev).unwrap();
+            out.write_all(b"\n").unwrap();
+        };
+        emit(out, json!({"op": "reset"}), &a);
+        for _ in 0..steps {
+            let k = keys[rng.gen_range(0..keys.len())];
+            match rng.gen_range(0..10) {
+                0..=4 => {
+                    let v = rng.gen_range(0..5);
+                    let ret = val(a.insert(k.to_string(), Variant::Int32(v)));
+                    emit(out, json!({"op": "insert", "k": bytes(k.as_bytes()), "v": v, "ret": ret}), &a);
+                }
+                5 | 6 => {
+                    let ret = val(a.remove(k));
+                    emit(out, json!({"op": "remove", "k": bytes(k.as_bytes()), "ret": ret}), &a);
+                }
+                7 => {
+                    let ret = val(a.get(k).cloned());
+                    emit(out, json!({"op": "get", "k": bytes(k.as_bytes()), "ret": ret}), &a);
+                }
+                8 => {
+                    a.clear();
+                    emit(out, json!({"op": "clear"}), &a);
+                }
+                _ => {
+                    let n = rng.gen_range(0..4usize);
+                    let taken: Vec<Value> = a.drain().take(n).map(|(k, v)| json!([bytes(k.as_bytes()), val(Some(v))])).collect();
+                    emit(out, json!({"op": "drain", "n": n, "ret": taken}), &a);
+                }
+            }
+        }
+    }
+}
